@@ -19,7 +19,11 @@ Record case := {
   c_kind : N;          (* 0 a cut of c_ledger: must load and deliver it
                           1 a cut with one include made to match nothing: must fail with NotFound
                           2 free-form tree
-                          3 a cut with one include given an unclosed `[`: must fail with InvalidIncludeGlob *)
+                          3 a cut with one include given an unclosed `[`: must fail with InvalidIncludeGlob
+                          4 an acyclic tree whose files are included repeatedly (from different files and
+                            from the same one, through canonical and non-canonical spellings): must load
+                            and deliver c_ledger, the expansion the generator computed from its
+                            construction — a second include of a file is not a cycle *)
   c_fs : fsys;
   c_root : path;
   c_ledger : list N;   (* the uncut ledger *)
@@ -68,7 +72,7 @@ Definition spec_holds (c : case) : bool :=
       attributed (c_fs c) t &&
       negb ((st =? 5) || (st =? 6)) &&           (* the trees are acyclic: no crash, no hang *)
       match c_kind c with
-      | 0 => (st =? 0) && list_eqb N.eqb (map snd t) (c_ledger c) && (c_bal c =? 1)
+      | 0 | 4 => (st =? 0) && list_eqb N.eqb (map snd t) (c_ledger c) && (c_bal c =? 1)
       | 1 => (st =? 1) && prefix_eqb (map snd t) (c_ledger c)
       | 3 => (st =? 7) && prefix_eqb (map snd t) (c_ledger c)
       | _ => true
